@@ -361,6 +361,13 @@ def eval_stmts(stmts, ctx, env, want_value=False):
                 cons += c
                 bind(pat[1][1], o, env)
                 continue
+            # `let (_, X) = P(s)?;` / `let (t, X) = P(s)?;`: the parser runs on s but the remaining input it returns is dropped, so
+            # whatever follows starts again at the same position: what P consumed is kept in X AND consumed again
+            if e[0] == 'try' and e[1][0] == 'call' and e[1][2] == [('var', 's')] and pat[0] == 'ptuple' and len(pat[1]) == 2 and pat[1][0] != ('pvar', 's') and pat[1][0][0] in ('pvar', 'pwild', 'pother'):
+                c, o = eval_parser(e[1][1], ctx, env)
+                bind(pat[1][1], o, env)      # kept in the result, not counted as consumed: the body obligation cannot hold
+                ctx.notes.append(('input-not-threaded', pat[1][1]))
+                continue
             # F4 idiom: `let c = P(s); end_keywords(); let (s, c) = c?;`
             if e[0] == 'call' and e[2] == [('var', 's')] and pat[0] == 'pvar':
                 c, o = eval_parser(e[1], ctx, env)
